@@ -170,6 +170,10 @@ def _native(vc, cfg, d, mask):
         vc.prove("equal layer totals (native)", bool(np.all(np.abs(np.diff(X.sum(1))) <= 10 * tol)))
     vc.prove("opacities within [0,1] (native)", bool(np.all(Pm >= -tol) and np.all(Pm <= 1 + tol)))
     vc.prove("same seed, same result (native)", bool(np.allclose(np.asarray(o2.value[0]), X, atol=1e-6) and np.allclose(np.asarray(o2.value[1]), Pm, atol=1e-6)))
+    for r in range(m):
+        t = lsq.T(d, [float(sum(Pm[r, l] * X[l, k] for l in range(nl))) for k in range(ns)])
+        vc.prove(f"pred[{r}] == model capture of opacities times intensities (native)", bool(np.allclose(pred[r], np.array(t, dtype=float), atol=1e-7)),
+                 detail=f"pred {pred[r].tolist()} model {[float(v) for v in t]}")
 
 
 def dispatch(vc, cfg):
@@ -207,7 +211,9 @@ def dispatch(vc, cfg):
 def _cfgs(tier):
     base = dict(nf=2, ns=2, m=2, lb="none", ub="fin", W="none", K="none", baseline="none")
     out = [dict(base, layers=1, mask=None, equal_l1=True), dict(base, layers=2, mask=[[1, 0], [1, 1]], equal_l1=True), dict(base, layers=2, mask=None, equal_l1=False),
-           dict(base, layers=1, mask=None, equal_l1=True, subsample=0.5, pbounds=True)]
+           dict(base, layers=1, mask=None, equal_l1=True, subsample=0.5, pbounds=True),
+           # non-zero baseline and adaptation: the returned prediction adds the baseline once per sample, whatever the opacity row sums
+           dict(base, layers=2, mask=None, equal_l1=False, K="vector", baseline="vector")]
     if tier != "quick":
         out += [dict(base, layers=2, mask=[[1, 0], [0, 1]], equal_l1=True, K="vector", baseline="vector", W="receptor"), dict(base, ns=3, layers=2, mask=[[1, 1, 0], [0, 1, 1]], equal_l1=True),
                 dict(base, layers=3, mask=None, equal_l1=True)]
